@@ -16,6 +16,7 @@ mod c13;
 mod c16;
 mod c17;
 mod c20;
+mod collisions;
 mod disk;
 mod framework;
 mod model;
